@@ -19,20 +19,20 @@ use veryl_parser::veryl_token::TokenSource;
 use veryl_parser::veryl_walker::VerylWalker;
 
 #[derive(Debug, Default)]
-struct CaseOut {
-    parsed: bool,
+pub(crate) struct CaseOut {
+    pub(crate) parsed: bool,
     tokens: u64,
-    comments: u64,
-    multibyte_comments: u64,
+    pub(crate) comments: u64,
+    pub(crate) multibyte_comments: u64,
     comments_after_comment_same_line: u64,
     comments_after_multibyte_same_line: u64,
     block_multiline: u64,
     crlf: bool,
     /// (class, detail)
-    bad: Vec<(String, String)>,
+    pub(crate) bad: Vec<(String, String)>,
 }
 
-fn check_text(input: &str) -> CaseOut {
+pub(crate) fn check_text(input: &str) -> CaseOut {
     let mut out = CaseOut::default();
     let Ok(parser) = Parser::parse(input, &Path::new("c12.veryl")) else {
         return out;
